@@ -2123,6 +2123,15 @@ impl<'a, E: quiver_core::effects::Effect> Compiler<'a, E> {
                 if let Some(d) = &mut dispatch {
                     d.valid = false;
                 }
+                // The condition's code is still emitted and still runs, and it stores a local
+                // for each of its bindings (a failed match fills them with nil to keep indices
+                // aligned within the chain). Control falls straight into the next branch, which
+                // numbers its locals from `param_local + 1`, so drop them like every other exit
+                // from a branch does.
+                if self.local_count > param_local + 1 {
+                    self.codegen
+                        .add_instruction(Instruction::Reset(param_local + 1));
+                }
                 continue;
             }
 
